@@ -506,12 +506,24 @@ def _debugging_unconfigure() -> list[str]:
             if isinstance(t, ast.Tuple):
                 if t.elts and _u(t.elts[0]) == "pdb.set_trace":
                     out.append("set_trace:=popped[0]")
+                if len(t.elts) > 1 and _u(t.elts[1]) == "PytaskPDB._pluginmanager":
+                    out.append("pm:=popped[1]")
+                if len(t.elts) > 2 and _u(t.elts[2]) == "PytaskPDB._config":
+                    out.append("config:=popped[2]")
             elif isinstance(t, ast.Name):
                 popped = t.id
             else:
                 raise _err(f"debugging.pytask_unconfigure: unrecognised target {_u(t)!r}")
         elif isinstance(st, ast.Expr) and _u(st.value) == "PytaskPDB._saved.pop()":
             out.append("pop")
+        elif isinstance(st, ast.Assign) and _u(st).replace(" ", "") == "PytaskPDB._wrapped_pdb_cls=None":
+            out.append("wrapped:=None")
+        elif isinstance(st, ast.If) and _u(st.test) == "PytaskPDB._pluginmanager is not None" and not st.orelse:
+            inner = [_u(x).replace('"', "'") for x in st.body]
+            if inner != ["live_manager = PytaskPDB._pluginmanager.get_plugin('live_manager')",
+                         "if live_manager is not None and live_manager.is_started:\n    live_manager.stop()"]:
+                raise _err(f"debugging.pytask_unconfigure: unrecognised block {inner}")
+            out.append("stop-live-if-started")
         elif isinstance(st, ast.Assign) and len(st.targets) == 1 and _u(st.targets[0]) == "pdb.set_trace" and popped is not None \
                 and _u(st.value) == f"{popped}[0]":
             out.append("set_trace:=popped[0]")
@@ -548,6 +560,11 @@ def misc_hooks() -> dict:
           and _u(wp[0].test).replace('"', "'") == "not config['disable_warnings']"
           and [_u(x).replace('"', "'") for x in wp[0].body] == ["config['pm'].register(WarningsNameSpace)"])
     f["warnings_post_parse_registers_only"] = bool(ok)
+    # build.pytask_post_parse (runs after capture.pytask_post_parse): everything it does is inside `with suppress(Exception)`, so a
+    # broken file_hashes.json cannot make the configuration fail once capturing has started
+    bp = _body(_hook("build.py", "pytask_post_parse"))
+    f["build_post_parse_tolerant"] = bool(len(bp) == 1 and isinstance(bp[0], ast.With) and len(bp[0].items) == 1
+                                          and _u(bp[0].items[0].context_expr) in ("suppress(Exception)", "contextlib.suppress(Exception)"))
     # build(): pytask_unconfigure is the last, unconditional statement of the branch taken when configuration succeeded
     fn = _hook("build.py", "build")
     tries = [n for n in fn.body if isinstance(n, ast.Try)]
@@ -675,6 +692,7 @@ def capgen_section() -> list[str]:
     L.append(f"def databaseUnconfigure : List String := {strs(mh['database_unconfigure'])}")
     L.append(f"def warningsIsolated : Bool := {b(mh['warnings_isolated'])}")
     L.append(f"def warningsPostParseRegistersOnly : Bool := {b(mh['warnings_post_parse_registers_only'])}")
+    L.append(f"def buildPostParseTolerant : Bool := {b(mh['build_post_parse_tolerant'])}")
     L.append(f"def buildUnconfigureUnconditional : Bool := {b(mh['build_unconfigure_unconditional'])}")
     L.append("/-- what `ExecutionReport.from_task` / `from_task_and_exception` (reports.py) pass as the report's `sections` -/")
     L.append(f"def reportSections : List String := {strs(report_sections())}")
